@@ -10,6 +10,8 @@
 package main
 
 import (
+	"encoding/base64"
+	"encoding/json"
 	"fmt"
 	"io"
 	"math/rand"
@@ -335,9 +337,12 @@ func (e *env) manifests(rng *rand.Rand) {
 			_, hex, _ := strings.Cut(m.D, ":")
 			decl = o + ":" + hex
 		}
-		how := []string{"digest", "tag+param", "tag", "digest+param"}[rng.Intn(4)]
+		how := []string{"digest", "tag+param", "tag", "digest+param", "param+digest"}[rng.Intn(5)]
 		url := "/v2/" + repo + "/manifests/"
 		switch how {
+		case "param+digest":
+			// the mirror image: the parameter is right, the digest in the path is the varied one
+			url += decl + "?digest=" + m.D
 		case "digest+param":
 			// two declarations: the digest in the path is right, the one in the parameter is the varied one (right,
 			// or not matching the bytes) - possibly of another algorithm
@@ -422,6 +427,26 @@ func (e *env) negotiation(rng *rand.Rand) {
 		children = append(children, m)
 	}
 	idx := vh.MkIndex("nx", algs[rng.Intn(3)], vh.MTIndex, children, "", "", map[string]string{"neg": fmt.Sprint(e.idx)})
+	if rng.Intn(2) == 0 {
+		// descriptors may carry an embedded copy of the content ("data"); the registry does not validate it, so here
+		// it holds other bytes of the same length - nothing of it may ever be served under the child's digest
+		var doc map[string]any
+		if json.Unmarshal(idx.Raw, &doc) == nil {
+			if ms, ok := doc["manifests"].([]any); ok {
+				for k, x := range ms {
+					if dm, ok := x.(map[string]any); ok {
+						fake := []byte(strings.Repeat("F", len(children[k].Raw)))
+						dm["data"] = base64.StdEncoding.EncodeToString(fake)
+					}
+				}
+				if raw, err := json.Marshal(doc); err == nil {
+					alg := vh.AlgOf(idx.D)
+					idx = &vh.Man{Name: "nx-data", Raw: raw, MT: idx.MT, D: vh.DigestOf(alg, raw), Refs: idx.Refs, Index: true}
+					e.r.Count("indexes_with_embedded_data", 1)
+				}
+			}
+		}
+	}
 	if rs := e.do(vh.Req{Method: "PUT", URL: vh.ManifestURL(repo, idx, "negot"), H: map[string]string{"Content-Type": idx.MT}, Body: idx.Raw}); rs.Status != 201 {
 		e.viol("right-manifest-refused", fmt.Sprintf("index push answered %d", rs.Status))
 		return
